@@ -4,7 +4,9 @@ import RuxModel.Model.Render
 /-
   driver engine `render` (C19): the response helpers of one request after the other.
 
-    req <GET|HEAD|POST> <accept-hex|none> <ct-hex|none>      -> ok
+    req <GET|HEAD|POST> <accept-hex|none> <ct-hex|none> [<wkind>]   -> ok
+        (<wkind> 0..7: which optional interfaces the harness's underlying writer has / real-server round trip;
+         the model's underlying writer is the event log in every case, so the token is only validated)
     <helper> <args…>                                         -> skipped | ok|panic ret=<0|1|-> errs=<n> ;; len= st= ct=
     end                                                      -> done|escaped <log> sent=<ct at commit> errs=<n> ;; len= st= ct=
 
@@ -128,11 +130,17 @@ def parseHelper (m : Meth) (accept : Bytes) (st : St) : List String → Option H
       pure (.ret r.1 r.2)
   | _ => none
 
+def reqStep (s : RenderSt) (m accept ct : String) : RenderSt × String :=
+  match parseMeth m, parseCT accept, parseCT ct with
+  | some m, some a, some ct => (⟨m, a.getD [], ct, St.fresh ct [], false⟩, "ok")
+  | _, _, _ => (s, "bad-op")
+
 def renderStep (s : RenderSt) : List String → RenderSt × String
-  | ["req", m, accept, ct] =>
-    match parseMeth m, parseCT accept, parseCT ct with
-    | some m, some a, some ct => (⟨m, a.getD [], ct, St.fresh ct [], false⟩, "ok")
-    | _, _, _ => (s, "bad-op")
+  | ["req", m, accept, ct] => reqStep s m accept ct
+  | ["req", m, accept, ct, wkind] =>
+    match wkind.toNat? with
+    | some k => if k ≤ 7 then reqStep s m accept ct else (s, "bad-op")
+    | none => (s, "bad-op")
   | ["end"] =>
     let f := if s.dead then s.st.w else s.st.finish
     ({ s with st := St.fresh s.ct0 [], dead := false },
